@@ -59,6 +59,7 @@ impl Property for C15 {
             ("link:WinCons".into(), 50),
             ("negative_bridge".into(), 100),
             ("negative_bridge_below_rounding".into(), 30),
+            ("models_without_any_construction_data".into(), 20),
             ("closed_models".into(), 100),
             ("nil_targets".into(), 100),
         ]
@@ -91,6 +92,11 @@ impl Property for C15 {
                     }
                 }
                 break_links(&mut rng, &mut m, p, &sel);
+                // the construction data base missing altogether (a geometry-only file): every construction link is broken
+                if rng.chance(0.03) {
+                    m.cons = bemodel::ConsDb::default();
+                    obs.count("models_without_any_construction_data");
+                }
                 for t in m.thermal_bridges.iter_mut() {
                     if t.l == 0.0 {
                         t.l = 0.0; // normalise -0.0 away: outside "negative length"
